@@ -89,3 +89,116 @@ PROP = Prop(
     extra_coverage=extra,
     workers={"quick": 4, "thorough": 8},
 )
+
+
+# ----------------------------------------------------------------------------- behavioural differential (sync vs async)
+
+from hypothesis import strategies as st  # noqa: E402
+
+from .. import gen  # noqa: E402
+from ..drivers import async_request, build_pool, norm_name, run_async, sync_request  # noqa: E402
+from ..simnet import World  # noqa: E402
+from ..topo import KINDS, is_h2, topo  # noqa: E402
+
+DIFF_KINDS = [k for k in KINDS]
+
+
+@st.composite
+def diff_scenarios(draw):
+    kind = draw(st.sampled_from(DIFF_KINDS))
+    h2 = is_h2(kind)
+    n = draw(st.integers(1, 3))
+    reqs = []
+    plans = {}
+    for i in range(n):
+        tok = f"d{i}"
+        body = draw(st.sampled_from([None, None, b"bytes-body", {"chunks": [b"it", b"", b"er"]}]))
+        reqs.append({"tok": tok, "method": "GET" if body is None else draw(st.sampled_from(["POST", "PUT"])), "body": body,
+                     "api": draw(st.sampled_from(["request", "request", "stream"])), "read": draw(st.sampled_from(["all", "all", 1, 0])),
+                     "host": draw(st.sampled_from(["a.test", "a.test", "b.test"])),
+                     "timeouts": draw(st.sampled_from([None, None, {"connect": 1.0, "read": 2.0, "write": 3.0, "pool": 0}]))})
+        plans[tok] = draw(gen.h2_plans() if h2 else gen.h1_plans())
+    return {"kind": kind, "requests": reqs, "plans": plans, "retries": draw(st.sampled_from([0, 0, 2])),
+            "max_connections": draw(st.sampled_from([10, 1, 2])), "max_keepalive": draw(st.sampled_from([None, None, 0, 1])),
+            "faults": [{"at": draw(st.integers(0, 30)), "fault": draw(st.sampled_from(["error", "timeout", "eof"]))} for _ in range(draw(st.sampled_from([0, 0, 1, 2])))],
+            "seg": draw(st.sampled_from([None, None, [1], [7, 100], [3]]))}
+
+
+def _one(sc, sync):
+    extra = {"max_connections": sc["max_connections"], "retries": sc["retries"]}
+    if sc["max_keepalive"] is not None:
+        extra["max_keepalive_connections"] = sc["max_keepalive"]
+    pool_cfg, cfg, scheme = topo(sc["kind"], plans=sc["plans"], pool_extra=extra)
+    world = World(peer_factory=cfg.peer_factory, faults=[dict(f) for f in sc["faults"]], seg=sc["seg"])
+    pool = build_pool(world, pool_cfg, sync=sync)
+    outs = []
+    states = []
+
+    def snap():
+        states.append(norm_name(repr(pool)) + " | " + ", ".join(norm_name(repr(c)) for c in pool.connections))
+
+    specs = []
+    for r in sc["requests"]:
+        spec = {"method": r["method"], "url": f"{scheme}://{r['host']}/t/{r['tok']}", "api": r["api"], "read": r["read"], "timeouts": r["timeouts"]}
+        if r["body"] is not None:
+            spec["content"] = r["body"]
+        specs.append(spec)
+    if sync:
+        for s in specs:
+            o = sync_request(pool, s)
+            o.pop("network_stream", None)
+            outs.append(o)
+            snap()
+        pool.close()
+        snap()
+    else:
+        async def go():
+            for s in specs:
+                o = await async_request(pool, s)
+                o.pop("network_stream", None)
+                outs.append(o)
+                snap()
+            await pool.aclose()
+            snap()
+
+        run_async(go())
+    trace = []
+    for op in world.trace:
+        trace.append((op["kind"], op["pipe"], op.get("timeout"), op.get("data"), op.get("max_bytes"), op.get("n"), op.get("exc"), op.get("host"),
+                      op.get("port"), op.get("server_hostname"), tuple(op["alpn"]) if op.get("alpn") else None, op.get("seconds")))
+    return outs, states, trace
+
+
+def execute_diff(sc) -> Outcome:
+    so, ss, st_ = _one(sc, True)
+    ao, as_, at = _one(sc, False)
+    vio = []
+    comparisons = 0
+    what = f"{sc['kind']} requests={[(r['method'], r['api'], r['read']) for r in sc['requests']]} faults={sc['faults']} seg={sc['seg']}"
+    for i, (a, b) in enumerate(zip(so, ao)):
+        comparisons += 1
+        ea = a["exc"] and a["exc"]["name"]
+        eb = b["exc"] and b["exc"]["name"]
+        if ea != eb:
+            vio.append(V(P, "diff-exception", f"{what}: request {i}: sync raised {a['exc'] and a['exc']['type']}, async raised {b['exc'] and b['exc']['type']}", conn=sc["kind"]))
+        elif ea is None and (a["status"], a["headers"], a["body"], a.get("http_version"), a.get("reason")) != (b["status"], b["headers"], b["body"], b.get("http_version"), b.get("reason")):
+            vio.append(V(P, "diff-response", f"{what}: request {i}: sync and async responses differ: {a['status']}/{len(a['body'])}B vs {b['status']}/{len(b['body'])}B", conn=sc["kind"]))
+    for i, (a, b) in enumerate(zip(ss, as_)):
+        comparisons += 1
+        if a != b:
+            vio.append(V(P, "diff-state", f"{what}: after step {i}: sync pool state {a!r}, async pool state {b!r}", conn=sc["kind"]))
+            break
+    comparisons += max(len(st_), len(at))
+    if st_ != at:
+        j = next((k for k in range(min(len(st_), len(at))) if st_[k] != at[k]), min(len(st_), len(at)))
+        vio.append(V(P, "diff-wire", f"{what}: network op #{j} differs: sync {st_[j] if j < len(st_) else None!r} vs async {at[j] if j < len(at) else None!r} "
+                     f"({len(st_)} vs {len(at)} ops)", conn=sc["kind"]))
+    fired = any(o["exc"] for o in so)
+    tags = [sc["kind"]] + (["fault"] if sc["faults"] else []) + (["multi-request"] if len(sc["requests"]) > 1 else [])
+    nontrivial = len(sc["requests"]) >= 2 or bool(sc["faults"]) or sc["kind"].split("-")[0] in ("forward", "tunnel", "socks")
+    return Outcome(vio[:4], tags, nontrivial, info={"ops": len(st_), "outcomes": [(o.get("status") or o["exc"]["name"]) for o in so]},
+                   metrics={"diff_pairs": 1, "diff_comparisons": comparisons})
+
+
+LAYERS.append(Layer("differential", strategy=diff_scenarios, execute=execute_diff, budget={"quick": 2400, "thorough": 80000}))
+PROP.layers = LAYERS
